@@ -2,6 +2,7 @@
 X3 (handler lifetime <= frame lifetime), X4 (one pop per handler on the exception path)."""
 from facts import origins, callee_name, op_place, op_const, Broken, strip_generics
 import c01
+from c16 import operand_fields
 import emit
 
 VM = 'yarel::vm::Vm::'
@@ -59,6 +60,8 @@ def run(rep):
     import c04
     c04.b2w(rep, w, 'X6')     # handler addresses (catch_ip / finally_ip) are computed from widened operands
     x7(rep, w)
+    x8(rep, w)
+    x9(rep, w)
 
 
 def x1(rep, w):
@@ -308,3 +311,137 @@ def x7(rep, w):
     for k in tab:
         if k not in used:
             r.note('listed function not needed on this tree: ' + k)
+
+
+def field_stores(f, field):
+    out = []
+    for bi in f.normal_blocks():
+        for s in f.blocks[bi]['s']:
+            d = s.get('d') or {}
+            ps = d.get('p') or []
+            if ps and isinstance(ps[-1], dict) and ps[-1].get('n') == field:
+                out.append((bi, s))
+    return out
+
+
+def x8(rep, w):
+    """Compiler.in_try_block decides whether `return` compiles to JumpFinally (which pops a handler at run time). It has to be true
+    exactly while the code being compiled runs with this try statement's handler registered: the try body, and nothing else --
+    the handler is gone when the catch / finally blocks run (unwind_stack, PopExcHandler and JumpFinally all pop it)."""
+    r = rep.rule('X8', 'the compiler\'s in_try_block flag is true exactly for the try body: set before PushExcHandler, restored before the catch and finally '
+                 'blocks are compiled; a nested function starts with it false', floor=5)
+    f = w.require_fn(P + 'try_statement', 'C08')
+    dom = f.dominators()
+    org = origins(f)
+    stores = field_stores(f, 'in_try_block')
+    sets = [bi for bi, s in stores if (op_const(s['r'].get('o', {}) or {}) or {}).get('v') == 1]
+    restores = [bi for bi, s in stores if op_const(s['r'].get('o', {}) or {}) is None and 'in_try_block' in operand_fields(f, org, s['r'].get('o', {}))]
+    r.check(len(stores) == 2 and len(sets) == 1 and len(restores) == 1, 'try_statement writes the flag twice: true, then the saved previous value',
+            'try_statement writes in_try_block %d times (%d x true, %d x saved value)' % (len(stores), len(sets), len(restores)), f.loc())
+    if len(sets) != 1 or len(restores) != 1:
+        return
+    sb, rb = sets[0], restores[0]
+    consumers = {g.path for g in w.yarel.fns.values() if g.path != f.path and any(
+        isinstance(p_, dict) and p_.get('n') == 'in_try_block' for b in g.blocks for s in b['s'] for p_ in ((s.get('r', {}).get('p') or {}).get('p') or []) + (((op_place(s.get('r', {}).get('o', {}) or {}) or {}).get('p')) or []))}
+    if not consumers:
+        raise Broken('C08', 'anchor', 'no reader of Compiler.in_try_block found')
+    reach = w.can_reach(consumers)
+    sites = sorted(bi for bi, t in f.calls() if callee_name(t) in reach and callee_name(t) not in emit.REPORTERS)
+    body = [b for b in sites if sb in dom.get(b, ()) and rb not in dom.get(b, ())]
+    after = [b for b in sites if rb in dom.get(b, ())]
+    other = [b for b in sites if b not in body and b not in after]
+    push = [bi for (bi, k, o, d) in emit.emissions(w, f) if o == 'PushExcHandler']
+    pop = [bi for (bi, k, o, d) in emit.emissions(w, f) if o == 'PopExcHandler']
+    r.check(len(push) == 1 and sb in dom.get(push[0], ()), 'the flag is set before PushExcHandler is emitted', 'in_try_block is set after the handler push was emitted', f.loc())
+    r.check(len(body) == 1 and len(pop) == 1 and body[0] in dom.get(pop[0], ()) and not other,
+            'exactly the try body (the one block compiled before PopExcHandler) is compiled with the flag set: %d site(s)' % len(body),
+            'statement-compiling calls made while in_try_block is still set: %d (and %d on paths where it may or may not be set); only the try body runs with the handler '
+            'registered -- a `return` compiled with the flag set elsewhere executes JumpFinally without a handler of its own' % (len(body), len(other)), f.loc())
+    r.check(len(after) >= 2, 'catch and finally blocks are compiled after the flag was restored: %d site(s)' % len(after),
+            'fewer than two block-compiling calls follow the restore of in_try_block', f.loc())
+    cn = w.require_fn('yarel::compiler::Compiler::new', 'C08')
+    ok = False
+    for b in cn.blocks:
+        for s in b['s']:
+            rr = s.get('r', {})
+            if rr.get('rv') == 'agg' and rr.get('adt') == 'yarel::compiler::Compiler' and 'in_try_block' in (rr.get('fn') or []):
+                k = op_const(rr['ops'][rr['fn'].index('in_try_block')])
+                ok = k is not None and k.get('v') == 0
+    r.check(ok, 'Compiler::new: in_try_block = false', 'a new function body does not start with in_try_block = false: a return in a function declared inside a try block '
+            'would pop the enclosing function\'s handler', cn.loc())
+
+
+def err_exits(g):
+    """blocks on which the function is leaving with an Err (built here or forwarded by `?`)"""
+    out = set()
+    for b in g.normal_blocks():
+        for s_ in g.blocks[b]['s']:
+            rr = s_.get('r', {})
+            if rr.get('rv') == 'agg' and rr.get('adt') == 'std::result::Result' and rr.get('v') == 'Err':
+                out.add(b)
+        t = g.blocks[b]['t']
+        if t['t'] == 'call' and (callee_name(t) or '').endswith('::from_residual'):
+            out.add(b)
+    return out
+
+
+def must_load(w):
+    """functions of Vm that call load_frame on every path to a normal Ok return (fixpoint over direct calls)"""
+    LF = VM + 'load_frame'
+    must = {LF}
+    changed = True
+    while changed:
+        changed = False
+        for p_, g in w.yarel.fns.items():
+            if p_ in must or not p_.startswith(VM):
+                continue
+            hits = {bi for bi, t in g.calls() if callee_name(t) in must}
+            if hits and c01.all_paths_hit(g, None, hits | err_exits(g)):
+                must.add(p_)
+                changed = True
+    return must
+
+
+def x9(rep, w, rid='X9'):
+    """Vm caches the running frame's chunk, module and ip. Whenever the frame list changes and execution goes on, the cache has to be
+    re-read from the new top frame -- all three together, which is what load_frame does. Refreshing only some of them by hand leaves
+    e.g. the handler's globals resolving in the thrower's module."""
+    r = rep.rule(rid, 'every change of the frame list is followed by load_frame (chunk, module and ip are reloaded together) before execution continues', floor=3)
+    must = must_load(w)
+    # a finished run does not continue: reset_stack (the failed run is over), and return_impl's Ok(Some(result)) exit (the script's last frame)
+    RUN_OVER = {VM + 'reset_stack': 'the run has ended; execute() loads the first frame of the next run'}
+    n = 0
+    for p_, f in sorted(w.yarel.fns.items()):
+        if not p_.startswith(VM):
+            continue
+        org = None
+        ev = []
+        for bi, t in f.calls():
+            nm = strip_generics(callee_name(t) or '')
+            if nm in ('std::vec::Vec::truncate', 'std::vec::Vec::pop', 'std::vec::Vec::push', 'std::vec::Vec::clear', 'std::vec::Vec::remove') and t['args']:
+                if org is None:
+                    org = origins(f)
+                if 'frames' in operand_fields(f, org, t['args'][0]):
+                    ev.append((bi, 'frames.' + nm.rsplit('::', 1)[-1]))
+            if callee_name(t) == 'yarel::object::ObjFiber::push_call_frame':
+                ev.append((bi, 'push_call_frame'))
+        for bi, what in ev:
+            n += 1
+            if p_ in RUN_OVER:
+                r.ok('%s / %s (%s)' % (p_, what, RUN_OVER[p_]))
+                continue
+            hits = {b for b, t in f.calls() if callee_name(t) in must}
+            # the exit that hands the script's result to Vm::run: `Ok(Some(value))`
+            for b in f.normal_blocks():
+                for s_ in f.blocks[b]['s']:
+                    rr = s_.get('r', {})
+                    if rr.get('rv') == 'agg' and rr.get('adt') == 'std::option::Option' and rr.get('v') == 'Some' and 'Value' in f.crate.tstr(f.local_ty(s_['d']['l'])) \
+                            and f.crate.tstr(f.local_ty(0)).startswith('std::result::Result<std::option::Option<value::Value>'):
+                        hits.add(b)
+            # error exits propagate out of run
+            hits |= err_exits(f)
+            ok = c01.all_paths_hit(f, bi, hits - {bi})
+            r.check(ok, '%s / %s' % (p_, what), 'the frame list changes here but some path continues without load_frame: the cached chunk / module / ip of the previous '
+                    'frame stay in use (e.g. a handler\'s globals resolve in the module that threw)', f.loc(f.blocks[bi]['t'].get('sp')))
+    if n < 3:
+        raise Broken('C08', 'floor', 'frame-list events found: %d' % n)
